@@ -202,7 +202,8 @@ impl<'c, Q: Queue> Interp<'c, Q> {
             // a history that cannot complete because a fault-free call panics violates "after any sequence"
             1 => pq && matches!(g, Group::Order | Group::Panic),
             2 => !pq && matches!(g, Group::Order | Group::Panic),
-            3 => matches!(g, Group::Content | Group::Ret | Group::Panic),
+            // a deserialized queue whose length disagrees with its contents / holds an item twice is a content defect too
+            3 => matches!(g, Group::Content | Group::Ret | Group::Panic) || (g == Group::Serde && matches!(op, "deser_seq" | "serde")),
             4 => matches!(g, Group::Panic | Group::Tables),
             6 => g == Group::Sorted || (matches!(g, Group::Panic | Group::IterStd) && matches!(op, "sorted" | "sorted_iter" | "adaptor_sorted")),
             7 => {
